@@ -231,6 +231,8 @@ func histWorld(l histLayout, tp tagPair, depth int, bin string) (fshist.World, e
 			want, got := clean[v][o], after[o]
 			if !bytes.Equal(want.Data, got.Data) {
 				ps = append(ps, fshist.Problem{Site: "C09|" + cls + "|differs-from-clean", Detail: fmt.Sprintf("%s after this history differs from generation on a clean tree (%d vs %d bytes)", o, len(got.Data), len(want.Data))})
+				// C16: "regenerated successfully" means the stale file was replaced by the output of this run
+				ps = append(ps, fshist.Problem{Site: "C16|" + cls + "|stale-output-not-replaced", Detail: fmt.Sprintf("%s: the run exited 0 over a stale/garbled previous output but the file is not the regenerated output (%d bytes, clean generation has %d)", o, len(got.Data), len(want.Data))})
 			}
 			lines := strings.SplitN(string(got.Data), "\n", 3)
 			if len(lines) < 2 || !strings.HasPrefix(lines[0], "// Code generated by") || !strings.HasSuffix(lines[0], "DO NOT EDIT.") {
